@@ -722,6 +722,10 @@ def ev_pushv(case):
             if kw == 'pushv':
                 for v in vs:
                     stacks.setdefault(st, []).append(x if v == 'x' else y)
+                if case.get('autoset'):        # every saved value is a different one
+                    x = 100 + i
+                    y = 200 + i
+                    lines += ['x\tset %d' % x, 'y\tset %d' % y]
             else:
                 for v in vs:
                     if not stacks.get(st):
@@ -812,6 +816,12 @@ def subspaces(tier):
     subs.append(('c:mutability<=%d' % nm, [{'k': 'mut', 'seq': list(s)} for k in range(1, nm + 1) for s in itertools.product(MOPS, repeat=k)]))
     npv = 4 if q else 5
     subs.append(('d:pushv-popv<=%d' % npv, ({'k': 'pv', 'seq': list(s)} for k in range(1, npv + 1) for s in itertools.product(POPS, repeat=k))))
+    # three and four named stacks alive at once (the list of stacks is kept sorted by name; one running empty is unlinked from
+    # the middle or the end of it): every sequence of pushes and pops over three stacks, every order of filling and emptying four
+    OPS3 = ['%s s%s,x' % (kw, n) for n in 'abc' for kw in ('pushv', 'popv')]
+    subs.append(('d:pushv-popv-three-stacks<=%d' % (npv + 1), ({'k': 'pv', 'seq': list(s), 'autoset': 1} for k in range(3, npv + 2) for s in itertools.product(OPS3, repeat=k))))
+    subs.append(('d:pushv-popv-four-stacks-orders', ({'k': 'pv', 'seq': ['pushv s%s,x' % n for n in a] + ['popv s%s,x' % n for n in b], 'autoset': 1}
+                                                      for a in itertools.permutations('abcd') for b in itertools.permutations('abcd'))))
     subs.append(('d:pushv-popv-strings<=%d' % npv, ({'k': 'pvs', 'seq': list(s)} for k in range(1, npv + 1) for s in itertools.product(SPOPS, repeat=k))))
     subs.append(('e:case-sensitivity', list(case_cases())))
     return subs
